@@ -74,6 +74,7 @@ func main() {
 	f(ctx)
 	drv.Close()
 	ctx.Res.Extra["wall_s"] = time.Since(ctx.start).Seconds()
+	ctx.Res.Extra["timeouts_not_repeated_on_rerun"] = timeoutsNotRepeated
 	b, _ := json.MarshalIndent(ctx.Res, "", " ")
 	if *out != "" {
 		ioutil.WriteFile(*out, b, 0644)
